@@ -1684,7 +1684,8 @@ def randomize_graph_partial_und(A, B, maxswap, seed=None):
             d = j[e2]  # to explore all potential rewirings
 
         # rewiring condition
-        if not (A[a, d] or A[c, b] or B[a, d] or B[c, b]):  # avoid specified ixes
+        if not (A[a, d] or A[c, b] or B[a, d] or B[c, b]
+                or B[d, a] or B[b, c]):  # avoid specified ixes
             A[a, d] = A[a, b]
             A[a, b] = 0
             A[d, a] = A[b, a]
